@@ -72,3 +72,17 @@ Theorem C11_trivia_free : forall class_ok is_trivia K g toks n p s acc,
   (forall s' ms, run class_ok is_trivia K g toks n p s acc = Ok s' ms -> Forall (TriviaProofs.leaf_ok is_trivia toks) ms).
 Proof. exact TriviaProofs.trivia_free. Qed.
 Print Assumptions C11_trivia_free.
+
+(** maximal munch of the tokenizer model: the token taken at a position is a longest match of
+    any of the 54 kinds, and of the first kind in declaration order among the longest *)
+Theorem C11_maximal_munch : forall t k0 n0, best t = Some (k0, n0) ->
+  1 <= n0 /\ match_kind k0 t = Some n0 /\
+  (forall k n, k < NKINDS -> match_kind (N.of_nat k) t = Some n -> n <= n0) /\
+  (forall k n, (N.of_nat k < k0)%N -> match_kind (N.of_nat k) t = Some n -> n < n0).
+Proof. exact best_is_maximal_munch. Qed.
+Print Assumptions C11_maximal_munch.
+
+Theorem C11_lexical_error_means_no_match : forall t, best t = None ->
+  forall k n, k < NKINDS -> match_kind (N.of_nat k) t = Some n -> n = 0.
+Proof. exact best_none. Qed.
+Print Assumptions C11_lexical_error_means_no_match.
